@@ -395,7 +395,13 @@ class SSHStreamSession(Generic[AnyStr]):
         """Allow SSHReader to be an async iterator"""
 
         while not self.at_eof(datatype):
-            yield await self.readline(datatype)
+            line = await self.readline(datatype)
+
+            # EOF may only be discovered while waiting for more data
+            if not line and self.at_eof(datatype):
+                break
+
+            yield line
 
     async def _block_read(self, datatype: DataType) -> None:
         """Wait for more data to arrive on the stream"""
